@@ -86,6 +86,15 @@ def _worker_init():
     except Exception:
         pass
     sys.setrecursionlimit(3000)
+    dbg = os.environ.get("VERIF_DEBUG_DIR")
+    if dbg:
+        import faulthandler
+        f = open(os.path.join(dbg, "fault-%d.log" % os.getpid()), "w")
+        faulthandler.enable(file=f, all_threads=True)
+        def hook(tp, val, tb, _f=f):
+            traceback.print_exception(tp, val, tb, file=_f)
+            _f.flush()
+        sys.excepthook = hook
 
 
 def _call(modname, fname, chunk):
